@@ -82,6 +82,12 @@ Theorem C16_helper_calls_guarded : forall c, In c helper_calls -> s_caught c = t
 Proof. exact helper_calls_guarded. Qed.
 Print Assumptions C16_helper_calls_guarded.
 
+(* the same for assert statements (AssertionError is no documented channel): each is one of the listed ones, whose condition the
+   component's constructor or pySHACL's own caller has established *)
+Theorem C16_assert_census : forall a, In a assert_sites -> assert_ok a = true.
+Proof. exact assert_census. Qed.
+Print Assumptions C16_assert_census.
+
 Example C16_census_nonvacuous :
   Nat.leb 100 (List.length raise_sites) = true /\ warning_is_caught = true
   /\ documented "ConstraintLoadError" = true /\ documented "ShapeLoadError" = true /\ documented "RuleLoadError" = true
